@@ -73,27 +73,28 @@ def plan(tier, seed):
     # CAZAC algebra: every root and lag of every listed odd length
     if thorough:
         zc = [{3, 5, 7, 9, 11, 13, 15, 17, 19, 21, 23}, {25, 27, 29}, {31, 33}, {35, 37, 39}, {41, 49}, {43, 45}, {47, 51}, {53, 55},
-              {59, 57}, {61, 63}]
-        fam["zc"] = [dict(ZcNs=ns, SpecMax=37) for ns in zc]
+              {59, 57}, {61, 63}, {67}, {71}, {73}, {79}, {83}, {89}, {97}]
+        fam["zc"] = [dict(ZcNs=ns, SpecMax=61) for ns in zc]
     else:
         fam["zc"] = [dict(ZcNs=ns, SpecMax=23) for ns in ({3, 5, 7, 9, 11, 13, 15, 17, 19, 21, 23}, {25, 27, 29}, {31})]
     fam["ext"] = [dict(ExtNs={3, 5, 7, 11, 13, 17} if thorough else {3, 5, 7, 11, 13})]
     # RootSequence: probes at every size; complete sequences for a seeded subset, the sizes around the end
     # of the stored table and the largest sizes
-    nfull = MAX_SIZE - 24 if thorough else 40
+    nfull = MAX_SIZE - 24 if thorough else 200
     full = set(int(x) for x in rng.choice(np.arange(25, MAX_SIZE + 1), nfull, replace=False))
     full |= {25, 26, 29, 30, 36, 48, 139, 150, 1008, 1009, 1010, 1012, 1013, 1014, 1019, 1193, 1199, 1200}
     fam["root"] = [dict(RootSizes=ch, RootFull=ch & full) for ch in chunks(range(25, MAX_SIZE + 1), 6 if thorough else 3)]
-    ue_sizes = [36, 48, 60, 72, 96, 120, 139, 144, 150, 288, 300, 600, 1000] if thorough else [36, 48, 139, 150, 300]
+    ue_sizes = ([36, 48, 60, 72, 96, 120, 139, 144, 150, 192, 288, 300, 576, 600, 864, 1000, 1152, 1200] if thorough
+                else [36, 48, 72, 139, 150, 300, 600, 1000])
     fam["ue"] = [dict(UeSizes=ch) for ch in chunks(ue_sizes, 4 if thorough else 3)]
     if thorough:
-        ls = [12, 24] + list(range(25, 121)) + [int(x) for x in rng.choice(np.arange(121, 1001), 12, replace=False)]
+        ls = [12, 24] + list(range(25, 201)) + [int(x) for x in rng.choice(np.arange(201, 1201), 36, replace=False)]
     else:
-        ls = [12, 24] + list(range(25, 50)) + [int(x) for x in rng.choice(np.arange(50, 400), 4, replace=False)]
+        ls = [12, 24] + list(range(25, 73)) + [int(x) for x in rng.choice(np.arange(73, 1201), 10, replace=False)]
     fam["shift"] = [dict(ShiftLs=ch) for ch in chunks(ls, 6 if thorough else 3)]
-    fam["ls"] = [dict(NLs=800 if thorough else 80)]
+    fam["ls"] = [dict(NLs=1500 if thorough else 200)]
     est_ls = [12, 24, 32, 36, 40, 48, 60, 64, 72, 96, 120, 144, 192, 288, 576] if thorough else [12, 24, 32, 36, 48, 72, 96]
-    nv = 16 if thorough else 2
+    nv = 32 if thorough else 6
     fam["est"] = [dict(EstFams={f}, EstLs=set(est_ls), EstNrx={1, 2, 3, 4}, EstVars=ch)
                   for f in ("srs", "dmrs", "occ") for ch in chunks(range(1, nv + 1), 4 if thorough else 1)]
     if thorough:
